@@ -57,6 +57,37 @@ def converter_criterion_holds(dom, members):
     return True
 
 
+def model_converter_raises(dom, world, init, plan, agents, strict):
+    """Defect model K10 as an executable description of what the converter does: greedy steps of at most two
+    consecutive actions of different agents, the second admitted when it is applicable in the tracked state and
+    the criterion the converter does apply holds; a step is then applied member by member in *slot* order on
+    the tracked state.  Because interference through preconditions and right-hand sides goes unnoticed, the
+    tracked state can drift from the plan's, and apply_actions later refuses a member (ValueError).  Returns
+    True when this model predicts that refusal for the given plan."""
+    st = init
+    i, n = 0, len(plan)
+    try:
+        while i < n:
+            members = [plan[i]]
+            i += 1
+            if i < n:
+                nxt = plan[i]
+                a0, a1 = executing_agent(members[0], agents), executing_agent(nxt, agents)
+                shared = set(members[0][1:]) & set(nxt[1:])
+                if a1 is not None and a1 != a0 and not (strict and shared) and pddl.applicable(dom, world, nxt, st) \
+                        and converter_criterion_holds(dom, [members[0], nxt]):
+                    members.append(nxt)
+                    i += 1
+            members.sort(key=lambda m: agents.index(executing_agent(m, agents)))
+            if not all(pddl.applicable(dom, world, m, st) for m in members):
+                return True
+            for m in members:
+                st = pddl.apply(dom, world, m, st)
+    except (pddl.Undefined, pddl.Ambiguous, pddl.Conflict, ValueError, TypeError):
+        return True       # the tracked state left the region the reference can follow: the model predicts nothing definite
+    return False
+
+
 def gen_walk(ch, dom, world, st, max_len):
     ground = []
     for a in dom["actions"]:
@@ -130,6 +161,10 @@ def check_file(case, res):
     okc, joint = lib_call(run)
     info = {**case, "agents": agents}
     if not okc:
+        if ctx.active(F_K10) and joint.type == "ValueError" and "apply" in joint.where and \
+                model_converter_raises(dom, world, prob["state"], plan, agents, strict):
+            res.known.append(F_K10)
+            return res
         res.bad(f"C15/file/convert/exception:{joint.key}", {**info, "error": repr(joint)})
         return res
     judge(res, info, dom, world, prob["state"], st, plan, agents, strict, joint)
@@ -202,6 +237,10 @@ def check_case(case):
     okc, joint = lib_call(PlanConverter(domain).convert_plan, problem, Path(path), agents, strict)
     res.key = json.dumps([dom, case["init"], plan, agents, strict], sort_keys=True)
     if not okc:
+        if ctx.active(F_K10) and joint.type == "ValueError" and "apply" in joint.where and \
+                model_converter_raises(dom, world, init, [[x.lower() for x in s] for s in plan], agents, strict):
+            res.known.append(F_K10)      # the converter's own tracked state drifted (interference it does not see)
+            return res
         res.bad(f"C15/convert/exception:{joint.key}", {**info, "error": repr(joint)})
         return res
     return judge(res, info, dom, world, init, final, plan, agents, strict, joint)
